@@ -192,3 +192,33 @@ def forward_states(body, init, transfer, start=0, edge_filter=None):
 def diverges(body, b):
     """block b cannot reach a return on normal edges (panic path)."""
     return not any(body.term(x)["k"] == "return" for x in body.reachable_from(b))
+
+
+from ..inline import inlined, keep_also, default_keep
+
+
+def inl(F, fn, *anchors, keep=None, tag=None):
+    """body of fn with private helpers inlined; `anchors` stay calls."""
+    if fn is None:
+        return None
+    k = keep or keep_also(*anchors)
+    t = tag or ("k:" + ",".join(sorted(a.key for a in anchors if a is not None)))
+    return inlined(F, fn, k, tag=t)
+
+
+def entry_callers(F, fn, limit=6):
+    """the non-private functions through which `fn` can be reached: direct callers, and - through private helpers - their callers."""
+    cg = call_graph(F)
+    out, seen, work = set(), set(), [fn.key]
+    while work:
+        k = work.pop()
+        for ck, blk in cg.get(k, ()):
+            c = root_fn(F, F.fns[ck])
+            if c.key in seen:
+                continue
+            seen.add(c.key)
+            if default_keep(c) or not cg.get(c.key):
+                out.add(c.key)
+            else:
+                work.append(c.key)
+    return [F.fns[k] for k in sorted(out)]
